@@ -132,6 +132,8 @@ type TF struct {
 	n     int
 	True  *Term
 	False *Term
+	// NoUnderflow: RUF rounding lemmas assume that no rounded result is subnormal (vr.NoUnderflow)
+	NoUnderflow bool
 }
 
 func NewTF() *TF {
